@@ -430,10 +430,14 @@ def apply_op(w, op):
     o = op['o']
     try:
         if o == 'A':
+            # the three arguments are documented as iterables: every other registration hands them over as one-shot iterators
+            # (generator expression, iter(), map) instead of lists
+            n_ids = sum(j for _, j in op['m'] + op['e'] + op['s'])
+            it = (lambda l: l) if n_ids % 2 == 0 else [(lambda l: iter(l)), (lambda l: (x for x in l)), (lambda l: map(lambda x: x, l))][n_ids % 3]
             db.add_context_category(op['cat'],
-                                    macros=[w.spec('m', n, j) for n, j in op['m']],
-                                    environments=[w.spec('e', n, j) for n, j in op['e']],
-                                    specials=[w.spec('s', n, j) for n, j in op['s']],
+                                    macros=it([w.spec('m', n, j) for n, j in op['m']]),
+                                    environments=it([w.spec('e', n, j) for n, j in op['e']]),
+                                    specials=it([w.spec('s', n, j) for n, j in op['s']]),
                                     prepend=op['p'], insert_before=op['b'], insert_after=op['a'])
             return 'ok', None, None
         if o == 'U':
@@ -531,6 +535,19 @@ def run_history(case, with_oracle=True):
                 if post != exp:
                     setfail({'kind': 'placement', 'detail': '%s: categories() was %r, add_context_category(%r, prepend=%r, insert_before=%r, '
                              'insert_after=%r) gave %r, expected %r' % (where, pre_cats, op['cat'], op['p'], op['b'], op['a'], post, exp)})
+                elif len(new_names) == 1:
+                    # the category holds the definitions it was given (last one wins for a repeated name), whatever kind of
+                    # iterable they came in
+                    for k in KINDS:
+                        given = {}
+                        for n_, j_ in op[k]:
+                            given[n_] = w.spec(k, n_, j_)
+                        r_, err_ = guarded(lambda: iter_specs(w.dbs[i], k, [new_names[0]]))
+                        held = None if err_ else sorted(id(o_) for o_ in r_)
+                        if held != sorted(id(o_) for o_ in given.values()):
+                            setfail({'kind': 'lookup-order', 'detail': '%s: category %r was given %s %r but holds %s'
+                                     % (where, new_names[0], KWHICH[k], sorted(given), err_ or [spec_name(k, o_) for o_ in r_])})
+                            break
             # derivation always possible
             if o == 'X' and valid and new is None:
                 setfail({'kind': 'filtered-raises', 'detail': '%s: filtered_context(keep=%r, exclude=%r, which=%r) raised; categories() = %r'
